@@ -624,6 +624,11 @@ bool Instance::configure_tx_txin() {
 
 uint256 Instance::calc_sighash() {
     uint256 hash;
+    if (tx->vin.size() != 1) {
+        // BIP341 commits to every spent output; only the one given with --txin is known
+        fprintf(stderr, "cannot compute the taproot signature hash: the transaction has %zu inputs, but only the output spent by input %" PRId64 " is known\n", tx->vin.size(), txin_index);
+        exit(1);
+    }
     std::vector<CTxOut> spent_outputs;
     spent_outputs.emplace_back(txin->vout[txin_vout_index]);
     txdata = PrecomputedTransactionData();
